@@ -96,6 +96,33 @@ def t_search(start: int, target: StateId) -> bool:
     return _search_verdict(start, target)
 
 
+def _search_twice_verdict(first: int, second: int, target: StateId) -> bool:
+    """History dimension: an earlier search (from any state, same target) must not influence a later one."""
+    try:
+        _instance(first, []).search(target, debug=False)
+    except ValueError:
+        pass
+    return _search_verdict(second, target)
+
+
+def c_search_twice(first: int, second: int, target: StateId) -> bool:
+    """
+    pre: 0 <= first <= 2
+    pre: 0 <= second <= 2
+    post: _
+    """
+    return _search_twice_verdict(first, second, target)
+
+
+def t_search_twice(first: int, second: int, target: StateId) -> bool:
+    """
+    pre: 0 <= first <= 2
+    pre: 0 <= second <= 2
+    post: not _
+    """
+    return _search_twice_verdict(first, second, target)
+
+
 def c_search_not_a_state_id(start: int, target: int) -> bool:
     """
     pre: 0 <= start <= 2
